@@ -76,7 +76,10 @@ Proof.
   destruct (forallb is_digit _); [|reflexivity]. destruct (undec _); reflexivity.
 Qed.
 
-Ltac norm_err := repeat first [rewrite send_error_eq | rewrite send_rejection_eq].
+Lemma upload_failed_eq s m : upload_failed s m = send_response s (err_resp 40 (lit "Upload error: " ++ m)).
+Proof. reflexivity. Qed.
+
+Ltac norm_err := repeat first [rewrite upload_failed_eq | rewrite send_error_eq | rewrite send_rejection_eq].
 Ltac norm_send := norm_err; repeat rewrite send_response_eq.
 
 (* cancel_timer only touches the timer *)
@@ -98,20 +101,21 @@ Section Proto.
 Variable ip6 : str -> option str.
 Variable handler : str -> hres.
 Variable has_mw has_upload : bool.
+Variable up_call_fails : option str.
 Variable peer_ip : str.
 Variable peer_fp : option str.
 
 Notation route := (route handler).
 Notation handle_gemini := (handle_gemini ip6 handler has_mw peer_ip peer_fp).
-Notation start_upload := (start_upload has_upload).
-Notation process_titan_upload := (process_titan_upload has_mw has_upload peer_ip peer_fp).
-Notation handle_titan_url := (handle_titan_url ip6 has_mw has_upload peer_ip peer_fp).
-Notation data_received := (data_received ip6 handler has_mw has_upload peer_ip peer_fp).
-Notation feed := (feed ip6 handler has_mw has_upload peer_ip peer_fp).
-Notation task_done := (task_done handler has_upload).
-Notation step := (step ip6 handler has_mw has_upload peer_ip peer_fp).
-Notation run := (run ip6 handler has_mw has_upload peer_ip peer_fp).
-Notation final := (final ip6 handler has_mw has_upload peer_ip peer_fp).
+Notation start_upload := (start_upload has_upload up_call_fails).
+Notation process_titan_upload := (process_titan_upload has_mw has_upload up_call_fails peer_ip peer_fp).
+Notation handle_titan_url := (handle_titan_url ip6 has_mw has_upload up_call_fails peer_ip peer_fp).
+Notation data_received := (data_received ip6 handler has_mw has_upload up_call_fails peer_ip peer_fp).
+Notation feed := (feed ip6 handler has_mw has_upload up_call_fails peer_ip peer_fp).
+Notation task_done := (task_done handler has_upload up_call_fails).
+Notation step := (step ip6 handler has_mw has_upload up_call_fails peer_ip peer_fp).
+Notation run := (run ip6 handler has_mw has_upload up_call_fails peer_ip peer_fp).
+Notation final := (final ip6 handler has_mw has_upload up_call_fails peer_ip peer_fp).
 
 (* ================= state invariant ================= *)
 Record Inv (s : st) : Prop := {
@@ -193,7 +197,11 @@ Lemma Inv_start_upload s : Ready s -> Inv (fst (start_upload s)).
 Proof.
   intro R. unfold ServerProto.start_upload. destruct (titan s); [|apply R].
   destruct has_upload; [|apply R].
-  generalize (Inv_spawn s TUpload R). destruct (spawn s _). cbn. intro H; apply H. discriminate.
+  destruct up_call_fails as [msg|].
+  - unfold upload_failed. rewrite send_error_eq.
+    generalize (Inv_send s (err_resp 40 (lit "Upload error: " ++ msg)) (r_inv s R)).
+    destruct (send_response s _); auto.
+  - generalize (Inv_spawn s TUpload R). destruct (spawn s _). cbn. intro H; apply H. discriminate.
 Qed.
 
 Lemma Ready_set_await s : Inv s -> pending s = [] -> line_rcvd s = true -> timer s <> TArmed ->
